@@ -37,6 +37,7 @@ META = {
 }
 
 REF = cont(("a", [(0, 3, "x"), (5, 8, "y")]), ("b", [(1, 3, "x"), (5, 9, "x")]))
+REF3 = cont(("a", [(0, 3, "x"), (5, 8, "y")]), ("b", [(1, 3, "x"), (5, 9, "x")]), ("c", [(0, 2, "y"), (4, 8, "y"), (9, 10, "x")]))
 RECIPE = {"k": "comb", "a": 1.0, "b": 1.0, "de": 1.0}
 
 
@@ -46,6 +47,9 @@ def driver_configs():
         for mode in ("exact", "fast", "soft"):
             out.append({"sampler": sampler, "mode": mode, "n": 2, "prec": None})
     out.append({"sampler": "stat", "mode": "exact", "n": 3, "prec": None})
+    # explicit ground-truth annotators on a 3-annotator reference (given as an unordered collection)
+    out.append({"sampler": "shuffle", "mode": "exact", "n": 2, "prec": None, "gt": ["c", "a"]})
+    out.append({"sampler": "stat", "mode": "soft", "n": 2, "prec": None, "gt": ["b", "c"]})
     out.append({"sampler": "shuffle", "mode": "exact", "n": 2, "prec": 0.5})
     return out
 
@@ -58,9 +62,11 @@ def make_driver(dc, seed=5):
 
     def driver():
         np.random.seed(seed)
-        c = build_continuum(REF)
+        c = build_continuum(REF3 if dc.get("gt") else REF)
         s = None if dc["sampler"] == "stat" else pa.ShuffleContinuumSampler()
-        res = c.compute_gamma(d, n_samples=dc["n"], precision_level=dc["prec"], sampler=s, **kw)
+        gt = set(dc["gt"]) if dc.get("gt") else None
+        res = c.compute_gamma(d, n_samples=dc["n"], precision_level=dc["prec"], sampler=s,
+                              ground_truth_annotators=gt, **kw)
         return {"observed": repr(float(res.observed_disorder)),
                 "chance": [repr(float(al.disorder)) for al in res.chance_alignments],
                 "gamma": repr(float(res.gamma)), "gamma_cat": repr(float(res.gamma_cat)),
